@@ -21,6 +21,14 @@ import pipefam
 
 def _observe(req):
     try:
+        mode = req.get('source_mode', 'pickle')
+        if mode != 'pickle':
+            import warnings
+            import impl
+            with warnings.catch_warnings():
+                warnings.simplefilter('ignore')
+                obs, _ = impl.observe(req['p'], req['idx'], req['keys'], req.get('cycle_k', 0), ctx=impl.Ctx(source_mode=mode))
+            return obs
         return pipefam.observe_impl(req)
     except Exception as e:  # noqa  harness failure, reported as such
         return {'harness_error': repr(e)}
@@ -185,6 +193,7 @@ class PipeProperty:
     max_len = {'quick': 6, 'thorough': 10}
     required_ops = ()                  # generator self-test: ops that must occur at least `floor` times
     floor = 5
+    source_modes = ('pickle',)         # immutable_warranty of the sources, cycled over the cases
 
     def oracle(self, p, obs):
         """list of (clause, detail)"""
@@ -212,6 +221,8 @@ def run(pp, rep):
     rnd = [g.pipeline() for _ in range(pp.n_random[tier])]
     cases = [p for p in corpus + ex + rnd if pp.relevant(p)]
     reqs = [pipefam.make_request(p) for p in cases]
+    for i, r in enumerate(reqs):
+        r['source_mode'] = pp.source_modes[i % len(pp.source_modes)]
     procs = min(16, os.cpu_count() or 1)
     impl_obs = observe_many(reqs, procs)
     model_obs = model.ask(reqs)
@@ -224,8 +235,10 @@ def run(pp, rep):
     disagreements = []
     oracle_fails = []
     harness_errors = 0
+    mode_of = {}
     for req, a, b in zip(reqs, impl_obs, model_obs):
         p = req['p']
+        mode_of[id(p)] = req.get('source_mode', 'pickle')
         if 'harness_error' in a:
             harness_errors += 1
             continue
@@ -255,8 +268,9 @@ def run(pp, rep):
             raise common.Infra(f'generator self-test: stage {o} generated only {dist.get(o, 0)} times')
 
     # ---- judge ----------------------------------------------------------------------------
-    def oracle_fails_on(p):
+    def oracle_fails_on(p, mode='pickle'):
         req = pipefam.make_request(p)
+        req['source_mode'] = mode
         obs = _observe(req)
         return [(c, d) for c, d in pp.oracle(p, obs)
                 if pp.known(p, obs, c, d, findings) is None], obs
@@ -273,9 +287,10 @@ def run(pp, rep):
         if sig in seen_sig or reported >= 5:
             continue
         seen_sig.add(sig)
-        small = shrink(p, lambda q: any(c == clause for c, _ in oracle_fails_on(q)[0]))
-        fails, obs = oracle_fails_on(small)
-        rep.violation({'property': pp.prop, 'kind': 'oracle-failure', 'clause': clause,
+        mode = mode_of.get(id(p), 'pickle')
+        small = shrink(p, lambda q: any(c == clause for c, _ in oracle_fails_on(q, mode)[0]))
+        fails, obs = oracle_fails_on(small, mode)
+        rep.violation({'property': pp.prop, 'kind': 'oracle-failure', 'clause': clause, 'source_mode': mode,
                        'pipeline': small, 'original_pipeline': p,
                        'oracle_failures': [{'clause': c, 'detail': d} for c, d in fails][:5],
                        'observation': obs,
@@ -357,6 +372,7 @@ def replay(pp, j):
         print('replay names a proof obligation, nothing to execute:', j.get('what_no_longer_checks'))
         return 1
     req = pipefam.make_request(p)
+    req['source_mode'] = j.get('source_mode', 'pickle')
     a = _observe(req)
     b = model.ask([req])[0]
     d = restrict(pipefam.diff(a, b), pp.fields)
